@@ -5,7 +5,7 @@ cd /verif
 mkdir -p .work evidence replays lean/SV/Generated
 export GOFLAGS=-mod=mod GOPROXY=off GOSUMDB=off GOTOOLCHAIN=local GOWORK=off
 cp /repo/go.sum harness/go.sum
-(cd harness && go build -tags verif -o ../.work/svh ./cmd/svh)
+(cd harness && go build -tags verif -o ../.work/svh ./cmd/svh && go build -race -tags verif -o ../.work/svh-race ./cmd/svh)
 (cd tools/extract && go build -o ../../.work/extract .)
 ./.work/extract /repo > lean/SV/Generated/Facts.lean
 (cd lean && lake build SV svdriver)
